@@ -99,6 +99,10 @@ M = [
      "    local_steps2 = _tdvp_ps_backward(ttns, ttno, ttne, coeff, tau / 2)", "    local_steps2 = _tdvp_ps_forward(ttns, ttno, ttne, coeff, tau / 2)"),
     ("C11-tree-add-coeff", ["C11"], "renormalizer/tn/tree.py", "                tensor1, tensor2 = tensor1 * coeff1, tensor2 * coeff2", "                tensor1, tensor2 = tensor1 * coeff1, tensor2 * coeff1"),
     ("C14-mps-load-qnidx", ["C14"], "renormalizer/mps/mps.py", "        mp.qnidx = int(npload[\"qnidx\"])", "        mp.qnidx = int(npload[\"qnidx\"]) if int(npload[\"qnidx\"]) < 9 else 0"),
+    ("C10-imag-cmf-midpoint-real-time", ["C10"], "renormalizer/mps/mps.py", "half_dt = -1j * evolve_dt / 2 if imag_time else evolve_dt / 2",
+     "half_dt = evolve_dt / 2"),
+    ("C14-dump-fails-silently-after-step-2", ["C14"], "renormalizer/utils/tdmps.py", "        d = self.get_dump_dict()\n        os.makedirs(self.dump_dir, exist_ok=True)",
+     "        d = self.get_dump_dict()\n        if len(self.evolve_times) > 2:\n            raise IOError('disk quota')\n        os.makedirs(self.dump_dir, exist_ok=True)"),
     ("C15-simplify-sums-abs", ["C15"], "renormalizer/model/op.py", None, None),
     ("C18-svd-qn-block-order", ["C18", "C04"], "renormalizer/mps/svd_qn.py", None, None),
     ("C20-cover-drops-isolated", ["C20"], "renormalizer/lib/bipartite_matching/bipartite_matching.py", None, None),
